@@ -6,7 +6,7 @@ the client's death becomes visible, the handler that sees it releases the whole 
 exactly the callbacks the statement asks for.  Client side (Model/IpcLifeClient.lean): bounded
 waiting after the server's death on an abstract clock.
 -/
-import QbVerif.Lemmas.IpcLifeSrv
+import QbVerif.Lemmas.IpcLifeSrv3
 import QbVerif.Model.IpcLifeClient
 import QbVerif.Lemmas.IpcLifeCl
 
@@ -124,6 +124,146 @@ theorem other_connections_untouched (svc : Service) (k j : Nat) (f : Slot → Sl
     (svc.run k f) j = svc j := by
   simp [Service.run, h]
 
+/-! ### reachability: every history of handler runs on a slot, hence every prefix of every client's
+action list under every schedule (each client action is visible to the server only through the
+inputs of these handlers, all universally quantified) -/
+
+/-- handshake pending -/
+def AuthInv (s : Slot) : Prop := ∃ n lg nc, n < AUTH_LEN ∧ s = mkAuth n lg nc ∧ cbsOf lg = []
+
+/-- released slot with one of the three admissible life-cycle traces -/
+def GoneOk (s : Slot) : Prop :=
+  Clean s ∧ (s.cbs = [] ∨ s.cbs = [.destroyed, .accept] ∨ s.cbs = [.destroyed, .closed, .created, .accept])
+
+def Good (t : Transport) (s : Slot) : Prop := AuthInv s ∨ EstInv t s ∨ GoneOk s
+
+theorem processAuth_good (t : Transport) (i : AuthIn) (env : Env) (s : Slot) (h : AuthInv s) :
+    Good t (processAuth t i env s) := by
+  obtain ⟨n, lg, nc, hn, rfl, hlg⟩ := h
+  by_cases hd : i.nval = true ∨ i.hup = true
+  · have := processAuth_hup t i env n lg nc hd
+    exact Or.inr (Or.inr ⟨this.1, Or.inl (this.2.trans hlg)⟩)
+  · have hnv : i.nval = false := by cases h : i.nval <;> simp_all
+    have hh : i.hup = false := by cases h : i.hup <;> simp_all
+    cases hp : i.pollin
+    · have : processAuth t i env (mkAuth n lg nc) = mkAuth n lg nc := by
+        simp [processAuth, mkAuth, hnv, hh, hp]
+      rw [this]
+      exact Or.inl ⟨n, lg, nc, hn, rfl, hlg⟩
+    · by_cases ha0 : i.avail = 0
+      · cases he : i.eof
+        · have : processAuth t i env (mkAuth n lg nc) = mkAuth n (.call .recvmsg :: lg) (nc + 1) := by
+            simp [processAuth, mkAuth, hnv, hh, hp, ha0, he, Slot.call]
+          rw [this]
+          exact Or.inl ⟨n, _, _, hn, rfl, hlg⟩
+        · have := processAuth_eof t i env n lg nc hnv hh hp ha0 he
+          exact Or.inr (Or.inr ⟨this.1, Or.inl (this.2.trans hlg)⟩)
+      · by_cases hlt : n + i.avail < AUTH_LEN
+        · cases he : i.eof
+          · have := processAuth_partial t i env n lg nc hnv hh hp (by omega) hlt he
+            exact Or.inl ⟨n + i.avail, _, _, hlt, this.1, this.2.trans hlg⟩
+          · have := processAuth_partial_eof t i env n lg nc hnv hh hp (by omega) hlt he
+            exact Or.inr (Or.inr ⟨this.1, Or.inl (this.2.trans hlg)⟩)
+        · rcases processAuth_complete t i env n lg nc hn hnv hh hp (by omega) with ⟨hf, hc⟩ | ⟨hcl, hc⟩
+          · obtain ⟨h1, h2, h3, h4, h5, h6⟩ := hf
+            exact Or.inr (Or.inl ⟨h1, h2, h3, h4, h5, ⟨true, true, h6⟩, by rw [hc, hlg]⟩)
+          · exact Or.inr (Or.inr ⟨hcl, Or.inr (Or.inl (by rw [hc, hlg]))⟩)
+
+/-- every slot the server can be in: `accept`, then any sequence of handler runs with any inputs -/
+inductive Reach (t : Transport) : Slot → Prop
+  | accept : Reach t acceptSlot
+  | auth (s : Slot) (i : AuthIn) (env : Env) (n : Nat) : Reach t s → s.phase = .auth n → Reach t (processAuth t i env s)
+  | dispatch (s : Slot) (i : DispIn) (env : Env) : Reach t s → s.phase = .conn → Reach t (dispatch t i env s).1
+  | resume (s : Slot) (need bytes : Nat) (hup : Bool) : Reach t s → s.phase = .conn →
+      Reach t (dispatchResume t need bytes hup s).1
+  | liveness (s : Slot) (nval hup pollin eof : Bool) : Reach t s → s.phase = .conn →
+      Reach t (liveness t nval hup pollin eof s)
+
+theorem Good.auth_of_phase {t : Transport} {s : Slot} (h : Good t s) (n : Nat) (hp : s.phase = .auth n) : AuthInv s := by
+  rcases h with h | h | h
+  · exact h
+  · rw [h.phase] at hp; cases hp
+  · rw [h.1.phase] at hp; cases hp
+
+theorem Good.est_of_phase {t : Transport} {s : Slot} (h : Good t s) (hp : s.phase = .conn) : EstInv t s := by
+  rcases h with ⟨n, lg, nc, _, rfl, _⟩ | h | h
+  · cases hp
+  · exact h
+  · rw [h.1.phase] at hp; cases hp
+
+theorem DeadClean.gone {s : Slot} (h : DeadClean s) : GoneOk s := ⟨h.1, Or.inr (Or.inr h.2)⟩
+
+theorem reach_good (t : Transport) (s : Slot) (h : Reach t s) : Good t s := by
+  induction h with
+  | accept => exact Or.inl ⟨0, _, _, by decide, acceptSlot_eq.1, acceptSlot_eq.2⟩
+  | auth s i env n _ hp ih => exact processAuth_good t i env s (ih.auth_of_phase n hp)
+  | dispatch s i env _ hp ih =>
+    rcases dispatch_inv t i env s (ih.est_of_phase hp) with h | h
+    · exact Or.inr (Or.inl h)
+    · exact Or.inr (Or.inr h.gone)
+  | resume s need bytes hup _ hp ih =>
+    rcases dispatchResume_inv t need bytes hup s (ih.est_of_phase hp) with h | h
+    · exact Or.inr (Or.inl h)
+    · exact Or.inr (Or.inr h.gone)
+  | liveness s nval hup pollin eof _ hp ih =>
+    rcases liveness_inv t nval hup pollin eof s (ih.est_of_phase hp) with h | h
+    · exact Or.inr (Or.inl h)
+    · exact Or.inr (Or.inr h.gone)
+
+theorem counts_of_cbs (s : Slot) :
+    s.nDestroyed = (s.cbs.filter (· == .destroyed)).length ∧ s.nClosed = (s.cbs.filter (· == .closed)).length ∧
+    s.nCreated = (s.cbs.filter (· == .created)).length ∧ s.nAccept = (s.cbs.filter (· == .accept)).length :=
+  ⟨count_eq_cbs _ _ rfl, count_eq_cbs _ _ rfl, count_eq_cbs _ _ rfl, count_eq_cbs _ _ rfl⟩
+
+/-- the callback clause of the statement on a released slot -/
+theorem GoneOk.counts {s : Slot} (h : GoneOk s) :
+    s.led = [] ∧ s.bad = false ∧ s.nDestroyed = s.nAccept ∧ s.nDestroyed ≤ 1 ∧ s.nClosed = s.nCreated ∧
+    s.nCreated ≤ s.nAccept := by
+  obtain ⟨h1, h2, h3, h4⟩ := counts_of_cbs s
+  rw [h1, h2, h3, h4]
+  refine ⟨h.1.led, h.1.bad, ?_⟩
+  rcases h.2 with e | e | e <;> rw [e] <;> decide
+
+/-- **client_death_cleanup** (full statement): for every reachable slot — every transport, every history
+    of handler runs with arbitrary inputs, i.e. every prefix of the client's action list, any queue
+    contents, any schedule — as soon as a handler sees the death of the client (POLLHUP/POLLNVAL during the
+    handshake; POLLHUP/POLLNVAL in the dispatch, in its blocked poll, in the liveness handler) the slot is
+    released: ledger empty, nothing released twice, destroyed fired exactly once iff the application had
+    accepted the client, closed fired once iff created fired; a slot that is already released satisfies the
+    same; a handler run touches no other slot (`other_connections_untouched`) -/
+theorem client_death_cleanup (t : Transport) (s : Slot) (hr : Reach t s) :
+    (∀ n, s.phase = .auth n → ∀ (i : AuthIn) (env : Env), (i.nval = true ∨ i.hup = true) →
+      GoneOk (processAuth t i env s) ∧ (processAuth t i env s).nAccept = 0) ∧
+    (s.phase = .conn → ∀ s', DeathSeen t s s' → GoneOk s' ∧ s'.nDestroyed = 1 ∧ s'.nClosed = 1 ∧
+      s'.nCreated = 1 ∧ s'.nAccept = 1) ∧
+    (s.phase = .gone → GoneOk s) := by
+  have hg := reach_good t s hr
+  refine ⟨?_, ?_, ?_⟩
+  · intro n hp i env hd
+    obtain ⟨n', lg, nc, _, rfl, hlg⟩ := hg.auth_of_phase n hp
+    have := processAuth_hup t i env n' lg nc hd
+    have hc : (processAuth t i env (mkAuth n' lg nc)).cbs = [] := this.2.trans hlg
+    exact ⟨⟨this.1, Or.inl hc⟩, (counts_of_empty_trace _ hc).2.2.2⟩
+  · intro hp s' hd
+    have he := hg.est_of_phase hp
+    have hdc : DeadClean s' := by
+      cases hd with
+      | dispatch i env h => rw [dispatch_of_hup t i env _ hp h]; exact connDisconnect_inv t s he
+      | resume need bytes => rw [dispatchResume_of_hup t need bytes _ hp]; exact connDisconnect_inv t s he
+      | liveness nval hup pollin eof h =>
+        rw [liveness_of_hup t nval hup pollin eof _ hp h]; exact connDisconnect_inv t s he
+    have hn := counts_of_full_trace _ hdc.2
+    exact ⟨hdc.gone, hn.1, hn.2.1, hn.2.2.1, hn.2.2.2⟩
+  · intro hp
+    rcases hg with ⟨n, lg, nc, _, rfl, _⟩ | h | h
+    · cases hp
+    · rw [h.phase] at hp; cases hp
+    · exact h
+
+/-- non-vacuity: a reachable established connection with queued work, then the death -/
+example : Reach .shm (processAuth .shm { pollin := true, avail := 24 } Env.alive acceptSlot) :=
+  .auth _ _ _ 0 .accept rfl
+
 /-! non-vacuity: the configurations are the ones the model reaches -/
 example : cbsOf acceptSlot.log = [] ∧ acceptSlot = mkAuth 0 acceptSlot.log 5 := ⟨rfl, rfl⟩
 example : DeathSeen .shm (mkEst .shm true true 1 0 0 [.created, .accept] 0)
@@ -221,6 +361,40 @@ theorem finite_timeout_respected_sendv_recv (c : Cl) (d : Nat) (hconn : c.conn =
     exact recvLoop_finite _ c d d hconn hstuck (by omega)
 
 example : (sendvRecv { deathAt := 4500 } none) = ({ conn := false, now := 6000, deathAt := 4500 }, .disc) := by decide
+
+/-- client_disconnect_removes_files: when the disconnect has been noticed and the dead server has been
+    reaped within the four `kill(pid, 0)` probes (or there is no server pid), `qb_ipcc_shm_disconnect`
+    reaches `unlinkat` for the data and the header file of all three rings, in the order request,
+    response, event; each file is removed, or — when the unlink fails — truncated -/
+theorem client_disconnect_removes_files (i : DiscIn) (hconn : i.conn = false)
+    (hdead : i.serverPid = true → ∃ k, k < 4 ∧ i.killEsrch k = true) (hdir : ∀ r, i.dirOpenOk r = true) :
+    (shmDisconnectFiles i).map (·.1) =
+      [.data .req, .hdr .req, .data .resp, .hdr .resp, .data .evt, .hdr .evt] ∧
+    (∀ f fate, (f, fate) ∈ shmDisconnectFiles i →
+      (i.unlinkOk f = true → fate = .removed) ∧ (i.unlinkOk f = false → fate = .truncated (i.truncOk f))) := by
+  have hf : forceClose i = true := by
+    unfold forceClose
+    cases hs : i.serverPid
+    · simp [hconn]
+    · obtain ⟨k, hk, he⟩ := hdead hs
+      simp only [hconn, Bool.not_false, Bool.true_and, if_true]
+      exact List.any_eq_true.mpr ⟨k, List.mem_range.mpr hk, he⟩
+  constructor
+  · simp [shmDisconnectFiles, closeRing, hf, hdir]
+  · intro f fate hm
+    simp only [shmDisconnectFiles, closeRing, hf, hdir, if_true, List.cons_append, List.nil_append,
+      List.mem_cons, Prod.mk.injEq, List.not_mem_nil, or_false] at hm
+    rcases hm with ⟨rfl, rfl⟩ | ⟨rfl, rfl⟩ | ⟨rfl, rfl⟩ | ⟨rfl, rfl⟩ | ⟨rfl, rfl⟩ | ⟨rfl, rfl⟩ <;>
+      (unfold unlinkOrTruncate; constructor <;> intro h <;> simp [h])
+
+/-- without the server being reaped (kill never says ESRCH) the files are left: the hypothesis is needed -/
+theorem client_disconnect_needs_reaped_server :
+    (shmDisconnectFiles { conn := false, killEsrch := fun _ => false, unlinkOk := fun _ => true }).map (·.2) =
+      [.left, .left, .left, .left, .left, .left] := by decide
+
+example : ∃ i : DiscIn, i.conn = false ∧ (i.serverPid = true → ∃ k, k < 4 ∧ i.killEsrch k = true) ∧
+    (∀ r, i.dirOpenOk r = true) :=
+  ⟨{ conn := false, killEsrch := fun k => k == 2, unlinkOk := fun _ => true }, rfl, fun _ => ⟨2, by omega, rfl⟩, fun _ => rfl⟩
 
 end Client
 end QbVerif.IpcLife
